@@ -69,6 +69,10 @@ def programs(ctx):
         progs.append(["Block: B", f"    Wait: {w}", "    Mark: n", "    End block"])
         for w2 in WAITS[:3]:
             progs.append([f"Wait: {w}", f"Wait: {w2}", "Mark: n"])
+    # a Wait that executes more than once: macro called twice, Alarm body that runs again
+    for w in ("0.5s", "0.3s"):
+        progs.append(["Macro: A", f"    Wait: {w}", "    Mark: n", "Call macro: A", "Call macro: A"])
+        progs.append(["Alarm: X > 1", f"    Wait: {w}", "    Mark: n", "Wait: 4s"])
     if not ctx.quick:
         for unit, base_line in bases[:2]:
             for t, w in itertools.product(THRESH[unit], WAITS):
@@ -166,9 +170,21 @@ def judge(lines, run: Run, forced=False):
             sibs = [x for x in info if x["parent"] == li["parent"] and x["idx"] > li["idx"] and not x["blank"]]
             if not sibs or sibs[0]["id"] not in rec or rec[sibs[0]["id"]]["first_visit"] < 0:
                 continue
-            judged += 1
             arg = li["arg"]
             dur = float(arg[:-3]) * 60 if arg.endswith("min") else float(arg[:-1])
+            # a Wait in a macro or Alarm body runs once per invocation: every execution is judged, paired with the next visit
+            # of the following instruction
+            nxt_visits = sorted(t for nm, t in rec[sibs[0]["id"]]["states"] if nm == "created")
+            for k, ts_state_k in enumerate(sorted(d["started"])[1:], start=2):
+                later = [t for t in nxt_visits if t >= ts_state_k]
+                if not later:
+                    continue
+                judged += 1
+                el = (later[0] - prev_interpreter_tick(run, ts_state_k)) * DT
+                if el < dur - EPS:
+                    probs.append((f"C03:wait-too-short:{arg}:execution-{min(k, 2)}+",
+                                  f"'Wait: {arg}' execution {k} started in tick {ts_state_k - 1}; the next instruction was visited in tick {later[0]}, {el:.3f}s later"))
+            judged += 1
             # "after the Wait started" can be read as the tick of the started flag or the tick of the Started state (one later,
             # which is the time the engine itself counts from); the lower bound is judged from the earlier, the upper bound
             # from the later reading, so that behaviour consistent with either reading is accepted
